@@ -4,6 +4,7 @@ import (
 	"context"
 	"crypto/tls"
 	"encoding/json"
+	"errors"
 	"fmt"
 	"net/http"
 	"time"
@@ -18,6 +19,8 @@ const (
 
 	defaultDataTimeout = 10 * time.Second
 )
+
+var errRedirect = errors.New("redirect to another location is not followed")
 
 type ScanResult struct {
 	ScanType string        `json:"scan"`
@@ -71,6 +74,11 @@ func NewScanner(proto string, opts ...ScannerOption) *Scanner {
 	s := &Scanner{
 		client: &http.Client{
 			Transport: tr,
+			// never follow redirects: the scanned host must not be able
+			// to send the scanner to an address outside of the target set
+			CheckRedirect: func(*http.Request, []*http.Request) error {
+				return errRedirect
+			},
 		},
 		proto:       proto,
 		dataTimeout: defaultDataTimeout,
